@@ -28,7 +28,7 @@ Trace == ndJsonDeserialize("trace.ndjson")
 Ev == Trace[l]
 
 CfgOf(e) == [ ann |-> e.ann, tor |-> e.tor, trk |-> e.trk, cmin |-> e.cmin, unit |-> e.unit, gslack |-> e.gslack,
-              bo |-> e.bo, lat |-> e.lat, slk |-> e.slk, timed |-> TRUE, gapk |-> e.gapk, asis |-> {}, ivals |-> {} ]
+              bo |-> e.bo, lat |-> e.lat, slk |-> e.slk, timed |-> TRUE, gapk |-> e.gapk, asis |-> {}, ivals |-> {}, cids |-> {} ]
 
 Idle == /\ tor = <<>> /\ an = <<>> /\ rq = {} /\ idx = <<>> /\ up = <<>> /\ uc = <<>>
 
@@ -118,6 +118,14 @@ TrAnn ==
                     /\ UNCHANGED cfg
                     /\ Step(Join(<<Due>> \o AnnViol(M0, a, Ev.k, t, e, Ev.now, gap, mt[t].cinrun \/ Ahead(t)))) /\ TKeep
 
+\* @obligation C16.retry.hang  an announce handed to a real tracker client whose scripted server answers every request at once
+\*   ENDS - reply or error - within the envelope (loopback connect + announce or the client's own time-out, plus the slack):
+\*   it is not parked inside the transport (the announcer would stay in Contacting for ever, without any retry)
+TrCret ==
+    /\ Ev.op = "cret" /\ Ev.k \in K
+    /\ mon' = M0 /\ UNCHANGED <<cfg, mt, mk>>
+    /\ Step(Join(<<Due, IF Ev.dur > Ev.env + cfg.slk THEN "C16.retry.hang" ELSE "">>)) /\ TKeep
+
 \* a datagram whose (connection id, action, transaction id) was seen before arrived at UDP tracker k
 TrRtx ==
     /\ Ev.op = "rtx" /\ Ev.k \in K
@@ -163,7 +171,7 @@ TrFz ==
 
 TraceNext ==
     /\ l <= Len(Trace)
-    /\ \/ TrReset \/ TrStart \/ TrStop \/ TrComplete \/ TrNeed \/ TrStats \/ TrUp \/ TrTick \/ TrAnn \/ TrFz \/ TrRtx \/ TrTNew \/ TrTL \/ TrTR
+    /\ \/ TrReset \/ TrStart \/ TrStop \/ TrComplete \/ TrNeed \/ TrStats \/ TrUp \/ TrTick \/ TrAnn \/ TrFz \/ TrRtx \/ TrCret \/ TrTNew \/ TrTL \/ TrTR
 
 TraceSpec == TraceInit /\ [][TraceNext]_tvars
 
